@@ -344,3 +344,24 @@ fn probe_recipient_key_any_candidate_position() {
         }
     }
 }
+
+/// enc.nonce.prefix_then_big_endian_counter (C03/C04/C06/C07): the chunk nonce is prefix || big-endian counter, so two different
+/// chunk indexes never share a nonce (every byte of the counter enters it)
+#[test]
+fn probe_chunk_nonce_layout_and_distinctness() {
+    let p = [0xa1u8, 0xa2, 0xa3, 0xa4, 0xa5, 0xa6, 0xa7, 0xa8];
+    let mut interesting: Vec<u32> = (0..1030).collect();
+    for s in [8u32, 16, 24, 31] { for d in [0u32, 1, 255, 256, 257] { interesting.push((1u32 << s).wrapping_add(d)); interesting.push((1u32 << s).wrapping_sub(d)); } }
+    interesting.push(u32::MAX);
+    interesting.sort_unstable();
+    interesting.dedup();
+    let mut seen = std::collections::HashMap::new();
+    for &c in &interesting {
+        let n = build_nonce(p, c);
+        assert_eq!(&n[..8], &p[..], "counter {c}: the nonce does not start with the 8-byte archive prefix");
+        assert_eq!(&n[8..], &c.to_be_bytes()[..], "counter {c}: the last 4 nonce bytes are not the big-endian counter");
+        if let Some(prev) = seen.insert(n, c) {
+            panic!("chunk counters {prev} and {c} give the same nonce");
+        }
+    }
+}
